@@ -85,6 +85,8 @@ def build_cf(C, titles):
     cf.parameters.set("cell_lattice_[P,A,B,C,I,F,R]", "F")
     cf.parameters.set("o11", -1)
     cf.parameters.set("tiny", 1e-300)
+    cf.parameters.set("sourcefile", "/data/year=2024/run=12/peaks.h5")
+    cf.parameters.set("cut", "Number_of_pixels>=4")
     return cf, cols
 
 
@@ -118,7 +120,7 @@ def _run_colfile(desc):
                         rounds = True
                 if ok:
                     for name, val in (("wavelength", 0.2846), ("distance", 151234), ("cell_lattice_[P,A,B,C,I,F,R]", "F"), ("o11", -1),
-                                      ("tiny", 1e-300)):
+                                      ("tiny", 1e-300), ("sourcefile", "/data/year=2024/run=12/peaks.h5"), ("cut", "Number_of_pixels>=4")):
                         got = rd.parameters.parameters.get(name, None)
                         if got != val or type(got) != type(val):
                             sh.violation("text:header-parameter", dict(case, name=name), {"read": repr(got), "written": repr(val)}); ok = False
@@ -260,7 +262,7 @@ def _run_pars(desc):
 PARVALUES = [0, 1, -1, 7, 2 ** 31, -2 ** 31 - 1, 2 ** 53, 2 ** 53 + 1, 10 ** 18 + 3, -(2 ** 63), 123456789012345678901234567890,
              0.0, -0.0, 1.0, -1.0, 0.5, 0.1 + 0.2, 1.0 / 3.0, 1e15, 1e16, 1e+16 + 2.0, 5e22, 1e100, 1.7976931348623157e308, 5e-324, 1e-5, 1.5e-7,
              123456789.0, float(2 ** 53), float(2 ** 53) + 2.0, -3e16, 2.5e-300, 6.02214076e23,
-             "P", "abc", "1e5x", "0x10", "a.b", "-", "+", "e5", "1.2.3", "12abc", ".", "--1"]
+             "P", "abc", "1e5x", "0x10", "a.b", "-", "+", "e5", "1.2.3", "12abc", ".", "--1", "a=b", "x==", "/d/year=2024/r=1.h5", "=", "k=v=w"]
 
 
 def _run_parvalues(desc):
@@ -413,8 +415,9 @@ def make_grain(G, idx, combo):
     if combo & 2:
         g.name = "%d:abc_%d.flt" % (idx, idx)
     if combo & 4:
-        g.npks = 17 + idx
-        g.nuniq = 11 + idx
+        # a count of zero is a value, not "absent" (every fifth grain)
+        g.npks = 17 + idx if idx % 5 != 4 else 0
+        g.nuniq = 11 + idx if idx % 5 != 4 else 0
     return g
 
 
